@@ -28,6 +28,34 @@ def load_file(path):
         return "exc", e
 
 
+SCRATCH = None     # set by a check's run() before workers are forked; replay creates its own
+
+
+def file_route(p):
+    """Serialise `p` with blackbird.dump into a file and read it back with blackbird.load.  The SAME path is used for
+    every program a worker handles (programs follow one another through one file name, as in any tool that keeps a
+    working file).  Returns ('ok', program, text on disk) or ('exc', exception, stage)."""
+    import os
+    import tempfile
+    import blackbird
+    global SCRATCH
+    if SCRATCH is None or not os.path.isdir(SCRATCH):
+        SCRATCH = tempfile.mkdtemp(prefix="bbv-files-")
+    path = os.path.join(SCRATCH, "work-%d.xbb" % os.getpid())
+    try:
+        with open(path, "w", encoding="utf-8", newline="") as f:
+            blackbird.dump(p, f)
+    except Exception as e:  # noqa
+        return "exc", e, "dump"
+    with open(path, encoding="utf-8", newline="") as f:
+        text = f.read()
+    observe.reset_tables()
+    try:
+        return "ok", blackbird.load(path), text
+    except Exception as e:  # noqa
+        return "exc", e, "load"
+
+
 def dumps(p):
     import blackbird
     try:
